@@ -13,6 +13,7 @@ import (
 	"fmt"
 	"os"
 	"reflect"
+	"strings"
 
 	"github.com/google/mtail/internal/zzverif/progs"
 	"github.com/google/mtail/internal/zzverif/vlib"
@@ -379,6 +380,28 @@ func check(c *progs.Case) []finding {
 				}
 			}
 		}
+		// within one metric every label set occurs once
+		dupIn := func(where, prog, name string, lvs []progs.LV) {
+			seenLs := map[string]bool{}
+			for _, lv := range lvs {
+				k := fmt.Sprintf("%q", lv.Ls)
+				if seenLs[k] {
+					out = append(out, finding{"duplicate-label-set-within-metric", fmt.Sprintf("step %d: metric %q of %s (%s) holds the label set %s twice", i+1, name, prog, where, k)})
+					return
+				}
+				seenLs[k] = true
+			}
+		}
+		for _, nm := range cur.Store {
+			for _, m := range nm.Metrics {
+				dupIn("store", m.Prog, nm.Name, m.LVs)
+			}
+		}
+		for _, hs := range cur.Handles {
+			for _, hm := range hs.Metrics {
+				dupIn("running vm", hs.Prog, hm.Decl.Name, hm.LVs)
+			}
+		}
 		// a running VM's exported metrics are the ones in the store
 		for _, h := range cur.Handles {
 			for _, hm := range h.Metrics {
@@ -396,6 +419,19 @@ func check(c *progs.Case) []finding {
 			}
 		}
 		prev = cur
+	}
+	// the Prometheus scrape after the last step succeeds, unless the store holds
+	// one of the duplicate series of the known findings
+	if c.ScrapeErr != "" {
+		known := false
+		for _, f := range out {
+			if strings.HasPrefix(f.class, "reload-") || f.class == "duplicate-series-other" {
+				known = true
+			}
+		}
+		if !known {
+			out = append(out, finding{"scrape-fails", "Prometheus Gather failed after the last step: " + c.ScrapeErr})
+		}
 	}
 	return out
 }
@@ -447,6 +483,7 @@ func nontrivial(c *progs.Case) bool {
 func main() {
 	a := vlib.ParseArgs()
 	progs.Quiet()
+	progs.WantScrape = true
 	if a.Replay != "" {
 		replay(a.Replay)
 		return
